@@ -41,6 +41,7 @@ class FarmWorld(World):
         dawgie.context.fsm = self.fsm
         self.mids = {}  # harness wid -> model id
         self.mseq = 0
+        self.tried = set()
 
     def mid(self, wid):
         return self.mids.get(wid, 0)
@@ -81,10 +82,16 @@ def run_job(job):
             w.obs = new_obs()
             ev = e['ev']
             ok = True
-            if ev == 'Register':
-                wid = w.model_worker(e['rev'])
-                w.ev_register(e['rev'], wid)
+            if ev == 'Connect':
+                wid = w.model_worker(None)
                 w.obs['wid'] = w.mid(wid)
+            elif ev == 'Register':
+                wid = w.wid_of(e['w'])
+                ok = wid is not None and w.workers[wid]['connected'] and not w.workers[wid]['registered'] and wid not in w.tried
+                if ok:
+                    w.tried.add(wid)
+                    w.ev_register(e['rev'], wid)
+                    w.obs['wid'] = w.mid(wid)
             elif ev == 'Poll':
                 wid = w.model_worker(e['rev'])
                 w.feed(wid, message.make(typ=message.Type.status, rev=e['rev']))
